@@ -124,6 +124,11 @@ func (ir *IntrospectionResolver) resolveType(schema *ast.Schema, typ *ast.Type, 
 		case "name":
 			result[f.Alias] = namedType.Name
 		case "fields":
+			// only objects and interfaces have fields, null for every other kind
+			if namedType.Kind != ast.Object && namedType.Kind != ast.Interface {
+				result[f.Alias] = nil
+				continue
+			}
 			includeDeprecated := false
 			if deprecatedArg := f.Arguments.ForName("includeDeprecated"); deprecatedArg != nil {
 				v, err := deprecatedArg.Value.Value(ir.Variables)
@@ -148,22 +153,31 @@ func (ir *IntrospectionResolver) resolveType(schema *ast.Schema, typ *ast.Type, 
 		case "description":
 			result[f.Alias] = namedType.Description
 		case "interfaces":
+			if namedType.Kind != ast.Object && namedType.Kind != ast.Interface {
+				result[f.Alias] = nil
+				continue
+			}
 			interfaces := []map[string]interface{}{}
 			for _, i := range namedType.Interfaces {
 				interfaces = append(interfaces, ir.resolveType(schema, &ast.Type{NamedType: i}, f.SelectionSet))
 			}
 			result[f.Alias] = interfaces
 		case "possibleTypes":
-			if len(namedType.Types) > 0 {
+			// members of a union and implementations of an interface, null for every other kind
+			if namedType.Kind == ast.Union || namedType.Kind == ast.Interface {
 				types := []map[string]interface{}{}
-				for _, t := range namedType.Types {
-					types = append(types, ir.resolveType(schema, &ast.Type{NamedType: t}, f.SelectionSet))
+				for _, t := range schema.PossibleTypes[namedType.Name] {
+					types = append(types, ir.resolveType(schema, &ast.Type{NamedType: t.Name}, f.SelectionSet))
 				}
 				result[f.Alias] = types
 			} else {
 				result[f.Alias] = nil
 			}
 		case "enumValues":
+			if namedType.Kind != ast.Enum {
+				result[f.Alias] = nil
+				continue
+			}
 			includeDeprecated := false
 			if deprecatedArg := f.Arguments.ForName("includeDeprecated"); deprecatedArg != nil {
 				v, err := deprecatedArg.Value.Value(ir.Variables)
@@ -183,11 +197,19 @@ func (ir *IntrospectionResolver) resolveType(schema *ast.Schema, typ *ast.Type, 
 			}
 			result[f.Alias] = enums
 		case "inputFields":
+			if namedType.Kind != ast.InputObject {
+				result[f.Alias] = nil
+				continue
+			}
 			inputFields := []map[string]interface{}{}
 			for _, fi := range namedType.Fields {
-				// call resolveField instead of resolveInputValue because it has
-				// the right type and is a superset of it
-				inputFields = append(inputFields, ir.resolveField(schema, fi, f.SelectionSet))
+				// an input field is an __InputValue: name, description, type and defaultValue
+				inputFields = append(inputFields, ir.resolveInputValue(schema, &ast.ArgumentDefinition{
+					Name:         fi.Name,
+					Description:  fi.Description,
+					Type:         fi.Type,
+					DefaultValue: fi.DefaultValue,
+				}, f.SelectionSet))
 			}
 			result[f.Alias] = inputFields
 		default:
